@@ -94,6 +94,9 @@ M = [
   """            while (pf.first[j] != id) ++j;
             result += multiplier * pf.second[j];
             multiplier *= space[j];"""),
+ ('M17 (snapshot, finding open) minusEqual(clearZero) erases the first basis instead of the merged one', 'src/Factored/Utils/FactoredVectorOps.cpp',
+  """                    retval.bases.erase(std::begin(retval.bases) + i);""",
+  """                    retval.bases.erase(std::begin(retval.bases));"""),
  ('F13 (on the repaired tree) minusEqual appends the unmerged basis un-negated', 'src/Factored/Utils/FactoredVectorOps.cpp',
   """            retval.bases.push_back(basis);
             retval.bases.back().values *= -1.0;""",
